@@ -91,7 +91,9 @@ CLAIMS.update({
                     "port, a capability route with zero/several/inconsistent locks, a blocked capability), C11_accept_sound, "
                     "C11_iff, and C11_refuted_acl (the open known finding: outside the guard the loader fails with a bare "
                     "AssertionError). Correspondence: valid descriptions, single injected defects of 13 kinds, arbitrary "
-                    "multiple defects; accept/reject, class and fields compared, messages checked to contain the culprit.",
+                    "multiple defects; accept/reject, class and fields compared, messages checked to contain the culprit "
+                    "(C11_message_names_culprit / C11_dead_input_message prove it of the modelled message templates, "
+                    "model/Errors.v, whose text equals the implementation's on every rejected case of the current tree).",
             "note": TEXT_NOTE + " One open known finding (known_findings.json: C11-acl-undeclared-capability).",
             "technique": "Coq proof (stage-by-stage case analysis of the loader model) + differential correspondence"},
     "C12": {"text": "Coq theorems C12_post_order (a processor built from parts with distinct internal-unit names lists the same "
@@ -115,12 +117,13 @@ CLAIMS.update({
                     "and tokens free of blanks/commas, read_program returns exactly the written instructions with 1-based "
                     "physical line numbers, destination first, sources deduplicated and sorted, first spellings), "
                     "C14_strip_invariant, C14_no_operands, C14_empty_operand (error carries line, mnemonic, position of the "
-                    "first empty operand). Correspondence: generated programs with all Latin-1 whitespace characters and "
+                    "first empty operand), C14_message (the message states mnemonic, line and position). Correspondence: generated programs with all Latin-1 whitespace characters and "
                     "single-fault corruptions; independent oracle from the generated instruction list.",
             "note": TEXT_NOTE, "technique": "Coq proof (string lemmas for strip/split) + differential correspondence"},
     "C15": {"text": "Coq theorems C15_isa_ok, C15_isa_reject, C15_isa_first_defect, C15_abilities, C15_compile_ok, "
-                    "C15_compile_fail over the models of load_isa / get_abilities / compile_program. Correspondence: ISA tables "
-                    "of 0..8 entries with arbitrary casing, collisions and unknown capabilities x capability sets x programs.",
+                    "C15_compile_fail, C15_isa_message, C15_compile_message over the models of load_isa / get_abilities / "
+                    "compile_program and their error messages. Correspondence: ISA tables "
+                    "of 0..8 (occasionally up to 60) entries with arbitrary casing, collisions and unknown capabilities x capability sets x programs.",
             "note": TEXT_NOTE, "technique": "Coq proof + differential correspondence"},
     "C16": {"text": "Coq theorems C16_cells (for every completed run of a wf processor the rows of the table have, in column t "
                     "of row k, '<label>:<unit>' exactly when the diagram places instruction k there, else an empty cell; uses "
@@ -147,6 +150,6 @@ NOTES = ("Three genuine defects of the pinned tree were repaired by unguarded fi
          "capability -> AssertionError); see known_findings.json and DESIGN.md section 6.  The implementation only runs in "
          "this sandbox with the fastcore-1.7 compatibility shim (DESIGN.md 1.1); the baseline command does not use it.  "
          "Beyond the per-property theorems, coq/props/E2E.v composes them along the whole pipeline and "
-         "coq/props/Readings.v, Readings2.v restate C02, C03, C07, C08 (a stall means deadlock), C10 and the lock clause "
+         "coq/props/Readings.v, Readings2.v, Readings4.v, Readings5.v restate C02, C03, C06, C07, C08 (a stall means deadlock), C09, C10 and the lock clause "
          "of the guard at Prop level.  Seeded breaking changes and behaviour-preserving refactorings made by independent "
          "sub-agents are kept under seeded/ with the outcome of the checks against them (DESIGN.md section 8).")
